@@ -283,6 +283,14 @@ func buildValue0(j J) interface{} {
 				panic("harness: merged config source: " + err.Error())
 			}
 		}
+		// settings removed again afterwards: objects and lists that have lost all their settings stay what they are
+		rms, _ := cj["removes"].([]interface{})
+		for _, r := range rms {
+			rm := r.(map[string]interface{})
+			if _, err := cfg.Remove(str(rm, "name"), numInt(rm["idx"], -1), buildOpts(rm["opts"])...); err != nil {
+				panic("harness: merged config source: remove: " + err.Error())
+			}
+		}
 		return cfg
 	}
 	if r, ok := j["reg"]; ok {
